@@ -168,8 +168,9 @@ def _run_main(ctx):
         "the MQTT part is bound at StringReplacer level with the call sequence of MqttHandler (parse(str,true,true), "
         "ensureDefault, get, rfind('/') + match); no MqttHandler object is instantiated",
         "HTTP: URIs of <= 4 tokens and <= 5 (quick) / 6 (thorough) characters exhaustively, longer ones (5-8 tokens) as a "
-        "seeded random sample (VERIF_SEED); one request form ('GET <uri> HTTP/1.1' + Host header); URIs with a malformed escape are judged for root "
-        "confinement only; the query part is not judged; a path with an encoded '/' need not be served",
+        "seeded random sample (VERIF_SEED); one request form ('GET <uri> HTTP/1.1' + Host header); in a path with a '%' that is not followed by two hex "
+        "digits every character must arrive unchanged, only whether genuine escapes behind that '%' are still decoded is "
+        "open; in the query part each genuine escape may be decoded or left, nothing else may change; a path with an encoded '/' need not be served",
         "TCP: argument lists of <= 2 arguments (length <= 3) exhaustively, triples over arguments of length <= 1 (quick) / "
         "<= 2 (thorough); unterminated quotes are unspecified",
     ]
